@@ -112,7 +112,8 @@ def coord_obligations():
 
 
 LON_FUNCS = ["_check_geographic_region", "_check_geographic_coordinates", "longitude_continuity"]
-LON_THEOREMS = ["src_check_geographic_region_eq", "src_longitude_continuity_region_eq"]
+LON_THEOREMS = ["src_check_geographic_region_eq", "src_longitude_continuity_region_eq",
+                "src_check_geographic_coordinates_eq", "src_longitude_continuity_coords_eq"]
 LON_IMPORTS = "From Coq Require Import ZifyBool.\nFrom Verde Require Import Model.Longitude Proofs.PyLiteBridge."
 
 
